@@ -4,6 +4,9 @@
    of every complete library together with the description the ground-truth model demands. *)
 EXTENDS Export, Json, CSV, IOUtils
 
+CONSTANT Shape(_)   \* prefix-closed restriction of the library's shape for the cfg (NoShape = none); argument unused
+NoShape(x) == TRUE
+
 None == {}
 NoComment == {""}
 Styles == {"", "//", "/*"}
@@ -34,7 +37,7 @@ SigMembersT == <<SigSet(PTT, 2), {}>>
 SigHeads == {<<"class", FALSE, FALSE>>}
 
 \* ---- roles: fixed-shape members (operators, typecast, data members, destructors, enums), with comments
-RoleKinds == {"meth", "smeth", "vmeth", "opeq", "opneg", "cast", "data", "cdata", "sdata", "dtor", "vdtor", "enum"}
+RoleKinds == {"meth", "smeth", "vmeth", "opeq", "opneg", "cast", "data", "cdata", "sdata", "dtor", "vdtor", "enum", "senum", "enum1", "enumc"}
 RoleMembers == <<{[Mem(k, "published") EXCEPT !.cm = cm] : k \in RoleKinds, cm \in Styles}, {}>>
 RoleHeads == {<<"class", TRUE, FALSE>>}
 TwoStyles == {"", "//"}
@@ -56,7 +59,9 @@ OpSet ==
   \cup {OpMem("operator typecast int", "const", AtomT("int"), <<>>), OpMem("operator typecast double", "const", AtomT("double"), <<>>)}
   \cup {OpMem("operator ()", "const", AtomT("int"), <<Par(AtomT("int"), TRUE, FALSE)>>),
         OpMem("operator []", "const", AtomT("int"), <<Par(AtomT("int"), TRUE, FALSE)>>)}
-  \cup {OpMem("ov", "meth", AtomT("void"), ps) : ps \in {<<>>, <<Par(AtomT("int"), TRUE, FALSE)>>, <<Par(AtomT("double"), TRUE, FALSE)>>}}
+  \* an overload set, each overload virtual or not
+  \cup {OpMem("ov", r, AtomT("void"), ps) : r \in {"meth", "virt"},
+                                          ps \in {<<>>, <<Par(AtomT("int"), TRUE, FALSE)>>, <<Par(AtomT("double"), TRUE, FALSE)>>}}
 OpMembers == <<OpSet, {}>>
 
 \* ---- bases: up to three classes in a publish region, every base list of length <= 2
@@ -64,6 +69,10 @@ BaseMembers == <<{Mem("meth", "published"), Mem("vmeth", "published")}, {}>>
 BaseMembersT == <<{Mem("meth", "published"), Mem("vmeth", "published"), Mem("vdtor", "published")}, {}>>
 BaseHeads == {<<"class", TRUE, FALSE>>}
 BaseKinds == {<<"public", FALSE>>, <<"public", TRUE>>, <<"protected", FALSE>>}
+\* ---- defbase: a base named without an access specifier, for every combination of class keys
+\* (`class D : virtual B` without an access specifier is rejected by the parser: C06's domain, not enumerated here)
+BaseKindsD == {<<"default", FALSE>>, <<"public", FALSE>>, <<"private", FALSE>>}
+BaseHeadsKS == {<<"class", TRUE, FALSE>>, <<"struct", TRUE, FALSE>>}
 
 \* ---- nesting and typedefs: a class with a nested class / enum, a namespace-scope typedef naming a class
 NestHeads == {<<"class", TRUE, FALSE>>}
@@ -72,6 +81,33 @@ NestMembers == <<{Mem("meth", "published"), Mem("enum", "published"), Mem("enum"
                  {Mem("meth", "published"), Mem("enum", "published")}>>
 M22 == <<2, 2>>
 NestTops == {Top("tdefc", FALSE, FALSE)}
+
+\* ---- virt: one function name along an inheritance chain 1 <- 2 <- 3 (optionally with a second base M of the last
+\* class); every class of the chain may declare it with `virtual`, with `override`, or with nothing
+VfMem(role, l) == [Mem("sig", l) EXCEPT !.nm = "vf", !.sig = [role |-> role, ret |-> AtomT("void"), ps |-> <<>>]]
+VirtMembers == <<{VfMem(r, l) : r \in {"virt", "meth", "over"}, l \in {"published", "public"}} \cup {Mem("meth", "published")}, {}>>
+VirtHeads == {<<"class", FALSE, FALSE>>}
+VirtBases == {<<"public", FALSE>>}
+IsChain(c) == \A i \in 1..NM(c) : Mbr(c, i).nm = "vf"
+IsMixin(c) == Cls(c).bases = <<>> /\ \A i \in 1..NM(c) : Mbr(c, i).k = "meth"
+VirtShape(x) ==
+  /\ NC >= 1 => (Cls(1).bases = <<>> /\ IsChain(1))
+  /\ NC >= 2 => (Len(Cls(2).bases) = 1 /\ Cls(2).bases[1].c = 1 /\ IsChain(2))
+  /\ NC >= 3 => ((Len(Cls(3).bases) = 1 /\ Cls(3).bases[1].c = 2 /\ IsChain(3)) \/ IsMixin(3))
+  /\ NC >= 4 => (IsMixin(3) /\ Len(Cls(4).bases) = 2 /\ Cls(4).bases[1].c = 2 /\ Cls(4).bases[2].c = 3 /\ IsChain(4))
+  /\ done => (NC >= 3 /\ (Cls(3).bases = <<>> => NC = 4))
+
+\* ---- copy: a nested class that has the simple name of a namespace-scope class, with constructors taking the one or the other
+CopyHeads == {<<"class", TRUE, FALSE>>}
+CopyMembers == <<{Mem("meth", "published")}, {Mem("ctorof", "published"), Mem("cctor", "published"), Mem("ctorof", "same"), Mem("cctor", "same")}>>
+CopyShape(x) ==
+  /\ NC >= 3 => (Cls(3).outer = 2 /\ Cls(3).like = 1)
+  /\ \A c \in 1..NC : (Cls(c).outer # 0 => (c = 3 /\ NM(2) = 1 /\ Mbr(2, 1).lab = "published"))
+  /\ \A c \in 1..NC : (Cls(c).outer = 0 => NM(c) <= 1)
+  /\ \A c \in 1..NC : \A i \in 1..NM(c) : (Mbr(c, i).k = "ctorof" => Mbr(c, i).rc = Cls(c).like)
+  /\ done => (NC = 3 /\ NM(3) >= 1)
+M12 == <<1, 2>>
+NestCS == {"class"}
 
 \* ---- namespace-scope entities with comments
 DescTops == {[Top(k, TRUE, FALSE) EXCEPT !.cm = cm] : k \in {"func", "var", "macro"}, cm \in Styles}
@@ -85,7 +121,11 @@ WF ==
   /\ \A c \in 1..NC : Cardinality({i \in 1..NM(c) : Mbr(c, i).k = "opneg"}) <= 1
   /\ \A c \in 1..NC : Cardinality({i \in 1..NM(c) : Mbr(c, i).k = "cast"}) <= 1
   \* no two members with the same name and parameter list
-  /\ \A c \in 1..NC : \A i, j \in 1..NM(c) : (i # j /\ Mbr(c, i).nm # "") => Mbr(c, i) # Mbr(c, j)
+  /\ \A c \in 1..NC : \A i, j \in 1..NM(c) : (i # j /\ Mbr(c, i).nm # "") =>
+        (Mbr(c, i).nm # Mbr(c, j).nm \/ Mbr(c, i).sig.ps # Mbr(c, j).sig.ps)
+  \* `override` needs a virtual function to override
+  /\ \A c \in 1..NC : \A i \in 1..NM(c) : (Mbr(c, i).sig.role = "over" => InheritedVirtual(c, i))
+  /\ \A c \in 1..NC : \A k \in {"ctorof", "cctor"} : Cardinality({i \in 1..NM(c) : Mbr(c, i).k = k}) <= 1
   \* a class appears at most once in a class's inheritance graph (no ambiguous bases)
   /\ \A c \in 1..NC : \A b1, b2 \in 1..Len(Cls(c).bases) :
        b1 # b2 => /\ Cls(c).bases[b1].c # Cls(c).bases[b2].c
@@ -118,7 +158,7 @@ TypecastFn(c, i) == Mbr(c, i).k = "cast" \/ Mbr(c, i).nm \in TypecastNames
 FnId(c, i) == [name |-> Mbr(c, i).nm, unary |-> UnaryFn(c, i), anon |-> IF Mbr(c, i).nm = "" THEN i ELSE 0]
 FnDesc(c, i) == LET s == SigOf(c, i) k == Mbr(c, i).k IN
   [c |-> c, i |-> i, variants |-> Variants(c, s), ret |-> RetFacts(c, s), fid |-> FnId(c, i),
-   flags |-> [method |-> TRUE, virtual |-> s.role = "virt", ctor |-> s.role = "ctor",
+   flags |-> [method |-> TRUE, virtual |-> IsVirtualFn(c, i), ctor |-> s.role = "ctor",
               unary |-> UnaryFn(c, i), typecast |-> TypecastFn(c, i)],
    cm |-> Mbr(c, i).cm]
 FnMembers(c) == {i \in 1..NM(c) : [t |-> "m", c |-> c, i |-> i] \in RCallable /\ IsFn(Mbr(c, i).k)}
@@ -129,17 +169,22 @@ DataDesc(c, i) == LET k == Mbr(c, i).k IN
   [c |-> c, i |-> i, setter |-> k # "cdata", static |-> k = "sdata", cm |-> Mbr(c, i).cm]
 \* (the virtual role is claimed when the recorded destructor function is a declared one; whether an implicit
 \* destructor overriding a virtual one is flagged virtual is not part of the claim)
+\* constructors of the copy family
+CtorSig(c, i) == [role |-> "ctor", ret |-> AtomT("void"),
+                  ps |-> <<Par(ClsT(IF Mbr(c, i).k = "cctor" THEN c ELSE Mbr(c, i).rc, "cref"), TRUE, FALSE)>>]
+CtorDesc(c, i) == [c |-> c, i |-> i, variants |-> Variants(c, CtorSig(c, i)), copy |-> Mbr(c, i).k = "cctor"]
 DtorDesc(c, i) == [c |-> c, i |-> i, virtual |-> VirtualDtor(c), vclaim |-> DeclaresDtor(DtorOwner(c)),
                    inherited |-> InheritsDtor(c), owner |-> DtorOwner(c)]
 
 Describe ==
   [fns |-> {FnDesc(e.c, e.i) : e \in {x \in RCallable : x.t = "m" /\ IsFn(Mbr(x.c, x.i).k)}},
    data |-> {DataDesc(e.c, e.i) : e \in {x \in RCallable : x.t = "m" /\ Mbr(x.c, x.i).k \in {"data", "cdata", "sdata"}}},
+   ctors |-> {CtorDesc(e.c, e.i) : e \in {x \in RCallable : x.t = "m" /\ Mbr(x.c, x.i).k \in {"ctorof", "cctor"}}},
    dtors |-> {DtorDesc(e.c, e.i) : e \in {x \in RCallable : x.t = "m" /\ Mbr(x.c, x.i).k \in {"dtor", "vdtor"}}},
    classes |-> {[c |-> x.c, derivations |-> Derivations(x.c), cm |-> Cls(x.c).cm, poly |-> Poly(x.c),
                  nmethods |-> NMethods(x.c), ncasts |-> NCasts(x.c),
                  nested |-> Cls(x.c).outer # 0, outer |-> Cls(x.c).outer] : x \in {y \in RDefined : IsClassT(y)}},
-   enums |-> {[c |-> x.c, i |-> x.i, cm |-> Mbr(x.c, x.i).cm] : x \in {y \in RDefined : ~IsClassT(y)}},
+   enums |-> {[c |-> x.c, i |-> x.i, cm |-> Mbr(x.c, x.i).cm, k |-> Mbr(x.c, x.i).k] : x \in {y \in RDefined : ~IsClassT(y)}},
    tops |-> {[t |-> e.i, cm |-> lib.tops[e.i].cm] : e \in {x \in RCallable : x.t = "t"}},
    typedefs |-> {[t |-> t, target |-> lib.tops[t].rc] : t \in {x \in 1..NT : TypedefGate(x)}}]
 
@@ -152,6 +197,7 @@ DescFunctional ==
 
 DumpConstraint ==
   /\ WF
+  /\ Shape(0)
   /\ IF done /\ phase = "build" /\ DumpFile # ""
        THEN CSVWrite("%1$s", <<ToJson([lib |-> lib, desc |-> Describe])>>, DumpFile)
        ELSE TRUE
